@@ -198,8 +198,24 @@ def shrink(runner, hist, sig):
 
 def main(argv):
     c = Check("C17", argv)
+    # census of every site of /repo that can change what a record holds (calls of HashSet, direct writes of
+    # SexpHash.Map / bucket pairs / GoStructFactory / TypeName, SexpHash literals) + the shape of HashSet itself:
+    # regenerated from the current source; Properties/C17.v proves every site covered (C17_every_write_site_covered)
+    rc, tlog = common.translate("writeroutes", "WriteRoutes.v")
+    translator_break = None
+    if rc != 0:
+        translator_break = tlog[-1500:]
+        c.log("translator writeroutes failed:\n" + tlog[-1500:])
+    else:
+        try:
+            gen = open(os.path.join(common.COQ, "Generated", "WriteRoutes.v")).read()
+            c.coverage["write_sites_enumerated"] = gen.count("\n  ([")
+            c.coverage["write_sites_calls_of_HashSet"] = gen.count(", SCallHashSet)")
+        except OSError:
+            pass
     c.proofs()
     c.trusted_base([
+        "translator/cmd/writeroutes (go/types census of HashSet calls and direct writers of SexpHash; bucket aliases are followed inside one function only, a pair obtained through a helper function is not seen)",
         "struct names, variables and field names are rendered by the harness (T<s>_<n>, v<id>, f<k>); values are a finite family of literals (docs/C17.md)",
         "the harness resets the user part of the process-global type registry between histories (exported maps), so each history sees a fresh process",
         "CloneFrom is modelled as a copy of the field map; the real one shares the bucket arrays (finding clonefrom-aliasing), so histories stop being compared after that finding shows",
@@ -264,6 +280,11 @@ def main(argv):
             c.violation({"kind": "correspondence: the implementation differs from the Coq model step/TypeCheckField/HashSet (no step violating the specification found)",
                          "history": small, "first": {k: e[k] for k in ("step", "op", "implementation", "model")},
                          "count": len(corr_fail)}, no_input=True, tag="corr")
+        elif translator_break:
+            c.violation({"kind": "translator writeroutes no longer understands zygo/*.go (census of write routes not generated)",
+                         "detail": translator_break}, no_input=True, tag="translator")
         elif c.proof_break:
-            c.violation({"kind": "proof obligation no longer checks", "detail": c.proof_break}, no_input=True, tag="proof")
+            c.violation({"kind": "proof obligation no longer checks (if it is C17_every_write_site_covered / C17_hashset_checks_first: "
+                                 "a new site writes a record without going through HashSet/TypeCheckField, see coq/Generated/WriteRoutes.v)",
+                         "detail": c.proof_break}, no_input=True, tag="proof")
     c.finish("proof")
